@@ -342,6 +342,18 @@ def _lfda_case(spec, j):
     return
   j.ok('C09.lfda.frame-captured')
   cap_aff, cap_sigma = {}, {}
+  # signature of the known open finding D10, for the *documented* k: column k
+  # of the column-wise partially sorted distance matrix, with the clamp of k
+  # to n_c - 1 carried over from one class to the next
+  from sklearn.metrics import pairwise_distances
+  d10_sigma = {}
+  k_run = k_eff
+  for c in classes:
+    Xc = np.asarray(X[y == c], dtype=float)
+    k_run = min(k_run, len(Xc) - 1)
+    dist_c = pairwise_distances(Xc, metric='l2', squared=True)
+    d10_sigma[c] = np.sqrt(np.partition(dist_c, k_run, axis=0)[:, k_run])
+  d10_match = True
   sigma_ok = True
   worst_sigma = 0.0
   for c, (vals, _) in zip(classes, caps):
@@ -371,6 +383,9 @@ def _lfda_case(spec, j):
     worst_sigma = max(worst_sigma, float(rel.max()))
     if rel.max() > 1e-9:
       sigma_ok = False
+    if np.abs(cap_sigma[c] - d10_sigma[c]).max() > 1e-9 * max(
+            np.abs(d10_sigma[c]).max(), 1e-300):
+      d10_match = False
   # link 3: metric from the affinities actually used
   Sw, Sb = CF.lfda_scatter(X, y, cap_aff)
   Mref, gap, lam = CF.lfda_reference(Sw, Sb, kdim, emb)
@@ -398,8 +413,9 @@ def _lfda_case(spec, j):
             dict(det, rayleigh=q, eigenvalues=lam[:kdim]))
   if sigma_ok:
     j.ok('C09.lfda.sigma-documented')
-  elif link3:
-    # the known finding: only the first link deviates
+  elif link3 and d10_match:
+    # the known finding: only the first link deviates, and it deviates in
+    # exactly the known way (anything else is reported as a new violation)
     j.violated('C09.lfda.sigma-documented',
                dict(det, worst_relative_sigma_error=worst_sigma,
                     k_eff=k_eff),
